@@ -82,7 +82,14 @@ RunWhys(r) ==
   IN
   IF r.doc.ok /\ r.mode # "targets" /\ Cyclic(a, V) THEN {"C09:run executed a cyclic configuration"}
   ELSE IF ds # ""
-  THEN {ds} \cup ({Fold(BasicPlanOf(r), FALSE, r.events).why} \ {""})
+  THEN LET bp  == BasicPlanOf(r)
+           acc == Fold(bp, FALSE, r.events)
+           \* the entries that ARE listed for planned pairs must still be truthful about their own process
+           listed(c) == { x \in UNION { RangeOf(g) : g \in RangeOf(r.doc.results[c]) } : x.t \in bp.req }
+           ent == IF ~r.doc.ok \/ acc.why # "" THEN {}
+                  ELSE UNION { { EntryWhy(bp, acc.st, <<c, e.t>>, e) : e \in listed(c) } :
+                                 c \in (DOMAIN r.doc.results) \cap (1..r.ncmd) }
+       IN {ds} \cup ({acc.why} \ {""}) \cup (ent \ {""})
   ELSE LET pl  == PlanOf(r)
            acc == Fold(pl, TRUE, r.events)
        IN IF acc.why # "" THEN {acc.why}
